@@ -12,6 +12,11 @@ the Rust code.  `n` is the register length (`length = n` as evaluated `i64`).
 -/
 import CamVerif.Proofs.C01
 import CamVerif.Proofs.C01Cached
+import CamVerif.Proofs.C01CachedMore
+import CamVerif.Proofs.C01CachedRO
+import CamVerif.Proofs.C01CachedDyn
+import CamVerif.Proofs.C01CachedDyn2
+import CamVerif.Proofs.C01Utf8
 namespace CamVerif.C01
 open CamVerif CamVerif.Reg CamVerif.Spec.Codec CamVerif.Proofs.C01
 
@@ -764,6 +769,576 @@ example :
         .ok (.int (-2)) ∧
     (Cache.run Cache.defaultCache Profile.dev g s1 (.setValue 1 (.int (-2)))).2.dev.mem =
       [0, 0xFF, 0xFE, 0xBB] := by
+  decide +kernel
+
+/-! ## 8. Caching ON, all register kinds (composition with C04's cache model, continued)
+
+Every theorem of this section is about the build with the DEFAULT cache store, holds for
+WriteThrough, WriteAround and NoCache registers alike, and is stated for an ARBITRARY state
+`s` (any cache content, any device, any log) — hence after any history — and an arbitrary
+description `g` around the register.  `hsel : r.sel = none` = the register has a constant
+address (section 9 treats `pIndex`). -/
+
+open Proofs.C01Cached in
+/-- **bridge (string)**: C04's `StringReg::set_value` check-and-pad accepts exactly the
+representable strings (ASCII, NUL-free, fits) and yields the NUL-padded image. -/
+theorem cache_bytesFromStr_is_image (s : Bytes) (n : Nat) (buf : Bytes) :
+    Cache.bytesFromStr s n = .ok buf ↔ Representable n s ∧ buf = strImage n s :=
+  cache_bytesFromStr_ok_iff s n buf
+
+open Proofs.C01Cached in
+/-- **bridge (float encode)**: on the bit pattern of `x` (`to_bits`, resp. `(x as f32).to_bits`)
+C04's `bytes_from_float` is this file's `bytesFromFloat x` (whose layout is `float_layout`). -/
+theorem cache_bytesFromFloat_is_reg {F : Type} [FloatOps F] (x : F) (len : Nat)
+    (hl : FloatLen len) (e : Cache.Endian) (buf : Bytes) :
+    Cache.bytesFromFloat (fltBits x len) len e = .ok buf ↔ bytesFromFloat x len (eTo e) = .ok buf :=
+  Proofs.C01Cached.cache_bytesFromFloat_is_reg x len hl e buf
+
+open Proofs.C01Cached in
+/-- **bridge (float decode)**: C04's `float_from_slice` carries the bit pattern whose float
+(`fltOf`: `from_bits`, resp. widening of `f32::from_bits`) is this file's `floatFromSlice`. -/
+theorem cache_floatFromSlice_is_reg {F : Type} [FloatOps F] (bs : Bytes)
+    (hl : FloatLen bs.length) (e : Cache.Endian) :
+    Cache.floatFromSlice bs e = .ok (.flt bs.length (Cache.fromEndian e bs)) ∧
+    floatFromSlice (F := F) bs (eTo e) = .ok (fltOf bs.length (Cache.fromEndian e bs)) :=
+  Proofs.C01Cached.cache_floatFromSlice_is_reg bs hl e
+
+/-- **cached_string_roundtrip**: a successful `set_value(str)` on a StringReg — the string was
+then representable — is exactly one device access, a write of `[address, address+length)`
+with exactly the NUL-padded image; the device holds the image; `value()` afterwards returns
+`str`, whatever an earlier read had left in the cache. -/
+theorem cached_string_roundtrip {p : Profile} {g : Cache.Graph} {s s' : Cache.St Cache.Store}
+    {n : Cache.NodeId} {r : Cache.Reg} (hn : g[n]? = some (.reg r)) (hsel : r.sel = none)
+    (hk : r.kind = .string) {str : Bytes} {u : Cache.Val}
+    (h : Cache.run Cache.defaultCache p g s (.setValue n (.str str)) = (.ok u, s')) :
+    Representable r.len str ∧
+    s'.dev.log = ⟨true, r.base, r.len, strImage r.len str, true⟩ :: s.dev.log ∧
+    s'.dev.mem = Cache.patch s.dev.mem r.base.toNat (strImage r.len str) ∧
+    (Cache.run Cache.defaultCache p g s' (.value n)).1 = .ok (.str str) :=
+  Proofs.C01Cached.cached_string_roundtrip hn hsel hk h
+
+/-- **cached_string_refused**: an unrepresentable string (non-ASCII byte, NUL, too long) is
+`InvalidData` and NOTHING changes: no device access, no log entry, cache untouched (any
+addressing, the check precedes the address evaluation). -/
+theorem cached_string_refused {p : Profile} {g : Cache.Graph} {s : Cache.St Cache.Store}
+    {n : Cache.NodeId} {r : Cache.Reg} (hn : g[n]? = some (.reg r)) (hk : r.kind = .string)
+    {str : Bytes} (hrep : ¬ Representable r.len str) :
+    Cache.run Cache.defaultCache p g s (.setValue n (.str str)) = (.err .invalidData, s) :=
+  Proofs.C01Cached.cached_string_refused hn hk hrep
+
+/-- the hypotheses are satisfiable: a WriteThrough 4-byte StringReg whose cache holds "ABCD"
+from an earlier read; `set_value("hi")` writes `68 69 00 00`, `value()` returns "hi"; a
+string with a NUL is refused with the state unchanged -/
+example :
+    let g : Cache.Graph := [.port, .reg ⟨.string, 1, none, 4, .writeThrough, .rw, [], 0⟩]
+    let s0 := Cache.initDefault g ⟨[0, 0x41, 0x42, 0x43, 0x44, 0xBB], [], [], [], [], 0, []⟩
+    let s1 := (Cache.run Cache.defaultCache Profile.dev g s0 (.value 1)).2
+    let s2 := (Cache.run Cache.defaultCache Profile.dev g s1 (.setValue 1 (.str [0x68, 0x69]))).2
+    (Cache.run Cache.defaultCache Profile.dev g s0 (.value 1)).1 = .ok (.str [0x41, 0x42, 0x43, 0x44]) ∧
+    (Cache.run Cache.defaultCache Profile.dev g s1 (.setValue 1 (.str [0x68, 0x69]))).1 = .ok .unit ∧
+    (Cache.run Cache.defaultCache Profile.dev g s2 (.value 1)).1 = .ok (.str [0x68, 0x69]) ∧
+    s2.dev.mem = [0, 0x68, 0x69, 0, 0, 0xBB] ∧
+    (Cache.run Cache.defaultCache Profile.dev g s2 (.setValue 1 (.str [0x68, 0, 0x69]))).1 =
+      .err .invalidData := by
+  decide +kernel
+
+/-- **cached_raw_roundtrip**: a successful raw `IRegister::write(buf)` is exactly one device
+write of exactly `buf` (which is `length` bytes) at `[address, address+length)`; afterwards the
+cached read path yields `buf` (whether it is served from the cache — WriteThrough — or from
+the device), and `IRegister::read` returns `buf` with exactly one device read of that range. -/
+theorem cached_raw_roundtrip {p : Profile} {g : Cache.Graph} {s s' : Cache.St Cache.Store}
+    {n : Cache.NodeId} {r : Cache.Reg} (hn : g[n]? = some (.reg r)) (hsel : r.sel = none)
+    {buf : Bytes} {u : Cache.Val}
+    (h : Cache.run Cache.defaultCache p g s (.write n buf) = (.ok u, s')) :
+    buf.length = r.len ∧
+    s'.dev.log = ⟨true, r.base, r.len, buf, true⟩ :: s.dev.log ∧
+    s'.dev.mem = Cache.patch s.dev.mem r.base.toNat buf ∧
+    (Cache.cachedRead Cache.defaultCache g n r r.base s').1 = .ok buf ∧
+    (Cache.run Cache.defaultCache p g s' (.read n r.len)).1 = .ok (.bytes buf) ∧
+    (Cache.run Cache.defaultCache p g s' (.read n r.len)).2.dev.log =
+      ⟨false, r.base, r.len, buf, true⟩ :: s'.dev.log :=
+  Proofs.C01Cached.cached_raw_roundtrip hn hsel h
+
+/-- **cached_raw_bad_buffer_refused**: a raw write whose buffer is not exactly `length` bytes
+is `InvalidBuffer` and nothing changes (any addressing). -/
+theorem cached_raw_bad_buffer_refused {p : Profile} {g : Cache.Graph} {s : Cache.St Cache.Store}
+    {n : Cache.NodeId} {r : Cache.Reg} (hn : g[n]? = some (.reg r)) {buf : Bytes}
+    (hl : buf.length ≠ r.len) :
+    Cache.run Cache.defaultCache p g s (.write n buf) = (.err .invalidBuffer, s) :=
+  Proofs.C01Cached.cached_raw_bad_buffer_refused hn hl
+
+/-- non-vacuity: a WriteAround raw 3-byte Register -/
+example :
+    let g : Cache.Graph := [.port, .reg ⟨.raw, 2, none, 3, .writeAround, .rw, [], 0⟩]
+    let s0 := Cache.initDefault g ⟨[9, 9, 9, 9, 9, 9], [], [], [], [], 0, []⟩
+    let s1 := (Cache.run Cache.defaultCache Profile.dev g s0 (.write 1 [1, 2, 3])).2
+    (Cache.run Cache.defaultCache Profile.dev g s0 (.write 1 [1, 2, 3])).1 = .ok .unit ∧
+    s1.dev.mem = [9, 9, 1, 2, 3, 9] ∧
+    (Cache.run Cache.defaultCache Profile.dev g s1 (.read 1 3)).1 = .ok (.bytes [1, 2, 3]) ∧
+    (Cache.run Cache.defaultCache Profile.dev g s0 (.write 1 [1, 2])).1 = .err .invalidBuffer := by
+  decide +kernel
+
+open Proofs.C01Cached in
+/-- **cached_float_roundtrip**: a successful `set_value(x)` on a FloatReg (length 4 or 8 — it
+could not succeed otherwise) is exactly one device write of `[address, address+length)` with
+exactly `bytesFromFloat x` (the IEEE byte layout of `float_layout`); `value()` afterwards
+returns a bit pattern that denotes `x` itself, under the same laws as caching-off
+(`float_roundtrip8/4`): `ofBits (toBits x) = x` for 8 bytes, `widen (narrow x) = x` for 4. -/
+theorem cached_float_roundtrip {F : Type} [FloatOps F] {p : Profile} {g : Cache.Graph}
+    {s s' : Cache.St Cache.Store} {n : Cache.NodeId} {r : Cache.Reg}
+    (hn : g[n]? = some (.reg r)) (hsel : r.sel = none) {e : Cache.Endian}
+    (hk : r.kind = .float e) (x : F)
+    (law : (r.len = 8 → FloatOps.ofBits (FloatOps.toBits x) = x) ∧
+           (r.len = 4 → FloatOps.widenBits32 (FloatOps.narrowBits32 x) = x))
+    {w : Nat} {u : Cache.Val}
+    (h : Cache.run Cache.defaultCache p g s (.setValue n (.flt w (fltBits x r.len))) = (.ok u, s')) :
+    FloatLen r.len ∧
+    ∃ img, bytesFromFloat x r.len (eTo e) = .ok img ∧
+      s'.dev.log = ⟨true, r.base, r.len, img, true⟩ :: s.dev.log ∧
+      s'.dev.mem = Cache.patch s.dev.mem r.base.toNat img ∧
+      ∃ k, (Cache.run Cache.defaultCache p g s' (.value n)).1 = .ok (.flt r.len k) ∧
+        fltOf (F := F) r.len k = x := by
+  obtain ⟨hfl, img, himg, hlog, hmem, k, hval, hdec⟩ :=
+    Proofs.C01Cached.cached_float_roundtrip hn hsel hk x h
+  refine ⟨hfl, img, himg, hlog, hmem, k, hval, ?_⟩
+  rcases hfl with h4 | h8
+  · obtain ⟨img', hi', _, hd'⟩ := float_roundtrip4 x (eTo e) (law.2 h4)
+    rw [h4] at himg hdec
+    rw [himg] at hi'
+    injection hi' with hi'
+    rw [← hi', hdec] at hd'
+    injection hd' with hd'
+    rw [h4]; exact hd'
+  · obtain ⟨img', hi', _, hd'⟩ := float_roundtrip8 x (eTo e) (law.1 h8)
+    rw [h8] at himg hdec
+    rw [himg] at hi'
+    injection hi' with hi'
+    rw [← hi', hdec] at hd'
+    injection hd' with hd'
+    rw [h8]; exact hd'
+
+/-- non-vacuity (bit-pattern level, the float laws are hypotheses): a big-endian 4-byte
+FloatReg with a cached older value; the pattern of 1.5f32 is written as `3F C0 00 00` and
+read back -/
+example :
+    let g : Cache.Graph := [.port, .reg ⟨.float .be, 0, none, 4, .writeThrough, .rw, [], 0⟩]
+    let s0 := Cache.initDefault g ⟨[0, 0, 0, 0, 0xBB], [], [], [], [], 0, []⟩
+    let s1 := (Cache.run Cache.defaultCache Profile.dev g s0 (.value 1)).2
+    let s2 := (Cache.run Cache.defaultCache Profile.dev g s1 (.setValue 1 (.flt 4 0x3FC00000))).2
+    (Cache.run Cache.defaultCache Profile.dev g s1 (.setValue 1 (.flt 4 0x3FC00000))).1 = .ok .unit ∧
+    s2.dev.mem = [0x3F, 0xC0, 0, 0, 0xBB] ∧
+    (Cache.run Cache.defaultCache Profile.dev g s2 (.value 1)).1 = .ok (.flt 4 0x3FC00000) := by
+  decide +kernel
+
+/-- **cached_value_footprint** (cached READS; IntReg, MaskedIntReg, FloatReg, StringReg): in
+any state, `value()` never changes device memory; if the cache holds the register's key the
+call changes NOTHING (no device access, no log entry, same cache); otherwise the log is
+unchanged (the call failed before the device) or grows by exactly one read entry for exactly
+`(address, length)`, which — when the device answered — carries the device's bytes there. -/
+theorem cached_value_footprint {p : Profile} {g : Cache.Graph} {s : Cache.St Cache.Store}
+    {n : Cache.NodeId} {r : Cache.Reg} (hn : g[n]? = some (.reg r)) (hsel : r.sel = none)
+    (hk : r.kind ≠ .raw) :
+    let s' := (Cache.run Cache.defaultCache p g s (.value n)).2
+    s'.dev.mem = s.dev.mem ∧
+    ((∃ bs, s.cache.get n r.base r.len = some bs) → s' = s) ∧
+    (s'.dev.log = s.dev.log ∨
+      ∃ data ok, s'.dev.log = ⟨false, r.base, r.len, data, ok⟩ :: s.dev.log ∧
+        (ok = true → s.dev.peek r.base r.len = some data)) :=
+  Proofs.C01Cached.cached_value_footprint hn hsel hk
+
+/-- **cached_read_footprint**: raw `IRegister::read` with any buffer length, whatever its
+outcome: device memory unchanged, at most one read entry, for exactly `(address, length)`. -/
+theorem cached_read_footprint {p : Profile} {g : Cache.Graph} {n : Cache.NodeId} {r : Cache.Reg}
+    (hn : g[n]? = some (.reg r)) (hsel : r.sel = none) (buflen : Nat) (s : Cache.St Cache.Store) :
+    let s' := (Cache.run Cache.defaultCache p g s (.read n buflen)).2
+    s'.dev.mem = s.dev.mem ∧
+    (s'.dev.log = s.dev.log ∨
+      ∃ data ok, s'.dev.log = ⟨false, r.base, r.len, data, ok⟩ :: s.dev.log ∧
+        (ok = true → s.dev.peek r.base r.len = some data)) :=
+  Proofs.C01Cached.cached_read_footprint hn hsel buflen s
+
+/-- **cached_set_footprint**: `set_value` with ANY value on an IntReg / FloatReg / StringReg
+(and the refused call on a raw Register), WHATEVER ITS OUTCOME (success, refusal, device
+fault, partially applied write): the device is untouched, or there is exactly one write
+attempt logged for exactly `(address, length)` and memory differs at most by a patch of at
+most `length` bytes at `address` — on success exactly the logged `length` bytes
+(`Proofs.C01Cached.OneW`).  (MaskedIntReg reads first: C02.) -/
+theorem cached_set_footprint {p : Profile} {g : Cache.Graph} {n : Cache.NodeId} {r : Cache.Reg}
+    (hn : g[n]? = some (.reg r)) (hsel : r.sel = none)
+    (hk : ∀ e sg l m, r.kind ≠ .masked e sg l m) (v : Cache.Val) (s : Cache.St Cache.Store) :
+    Proofs.C01Cached.OneW r.base r.len s.dev
+      (Cache.run Cache.defaultCache p g s (.setValue n v)).2.dev :=
+  Proofs.C01Cached.cached_set_footprint hn hsel hk v s
+
+/-- **cached_frame**: what `OneW` means for the bytes: for a register inside the device image,
+a `OneW` step (every `set_value` / `write` above, whatever its outcome) keeps the image length
+and every byte outside `[address, address+length)`. -/
+theorem cached_frame {a : Int} {l : Nat} {d d' : Cache.Dev} (h : Proofs.C01Cached.OneW a l d d')
+    (h0 : 0 ≤ a) (h1 : a + l ≤ d.mem.length) :
+    d'.mem.length = d.mem.length ∧
+    ∀ i : Nat, (i < a.toNat ∨ a.toNat + l ≤ i) → d'.mem[i]? = d.mem[i]? :=
+  Proofs.C01Cached.oneW_frame h h0 h1
+
+/-- **cached_write_footprint**: the same for raw `IRegister::write` with any buffer. -/
+theorem cached_write_footprint {p : Profile} {g : Cache.Graph} {n : Cache.NodeId} {r : Cache.Reg}
+    (hn : g[n]? = some (.reg r)) (hsel : r.sel = none) (buf : Bytes) (s : Cache.St Cache.Store) :
+    Proofs.C01Cached.OneW r.base r.len s.dev
+      (Cache.run Cache.defaultCache p g s (.write n buf)).2.dev :=
+  Proofs.C01Cached.cached_write_footprint hn hsel buf s
+
+/-- non-vacuity of the three disjuncts of the footprint statements: a cache hit (state
+unchanged), a miss (one R entry), and a write the device rejects half way (one failed W
+entry, 1 of 2 bytes applied) -/
+example :
+    let g : Cache.Graph := [.port, .reg ⟨.int .le .unsigned, 1, none, 2, .writeThrough, .rw, [], 0⟩]
+    let s0 := Cache.initDefault g ⟨[0, 0x34, 0x12, 0xBB], [], [], [], [(0, (1, []))], 0, []⟩
+    let s1 := (Cache.run Cache.defaultCache Profile.dev g s0 (.value 1)).2
+    let s2 := (Cache.run Cache.defaultCache Profile.dev g s1 (.value 1)).2
+    let s3 := (Cache.run Cache.defaultCache Profile.dev g s2 (.setValue 1 (.int 0x0707))).2
+    s1.dev.log = [⟨false, 1, 2, [0x34, 0x12], true⟩] ∧ s2.dev.log = s1.dev.log ∧
+    (Cache.run Cache.defaultCache Profile.dev g s2 (.setValue 1 (.int 0x0707))).1 = .err .device ∧
+    s3.dev.log = ⟨true, 1, 2, [0x07], false⟩ :: s1.dev.log ∧ s3.dev.mem = [0, 0x07, 0x12, 0xBB] ∧
+    (Cache.run Cache.defaultCache Profile.dev g s3 (.value 1)).1 = .ok (.int 0x1207) := by
+  decide +kernel
+
+/-! ## 9. Address evaluation: `<Address> + <pIndex Offset=off>selector</pIndex>`
+
+`RegisterBase::address` sums the address terms with plain `+=` on `i64`
+(`register_base.rs:141-152`) and `pIndex` multiplies with plain `*` (`elem_type.rs:304-318`):
+exact when representable; with overflow checks (dev) an overflow panics before the register
+is accessed; without (release) it wraps and the register is accessed at the wrapped address.
+`ev` is the selector evaluator (`NodeId::value::<i64>` through the cached path). -/
+
+/-- **pindex_address_exact**: when `base + k·off` is computable in `i64` (`k` the selector's
+value) that is the address, in both profiles; the state is the one the selector read left. -/
+theorem pindex_address_exact {p : Profile} {ev : Cache.NodeId → Cache.M Cache.Store Int}
+    {r : Cache.Reg} {sn : Cache.NodeId} {off : Int} (hsel : r.sel = some (sn, off))
+    {s : Cache.St Cache.Store} {k : Int} (hk : (ev sn s).1 = .ok k)
+    (h1 : Cache.I64_MIN ≤ k * off ∧ k * off ≤ Cache.I64_MAX)
+    (h2 : Cache.I64_MIN ≤ r.base + k * off ∧ r.base + k * off ≤ Cache.I64_MAX) :
+    Cache.regAddr p ev r s = (.ok (r.base + k * off), (ev sn s).2) :=
+  Proofs.C01Cached.address_exact hsel hk h1 h2
+
+/-- **pindex_address_overflow_checked**: with overflow checks, a product or sum that leaves
+`i64` is a panic (after the selector read, before any access of the register itself). -/
+theorem pindex_address_overflow_checked {p : Profile} (hp : p.overflowChecks = true)
+    {ev : Cache.NodeId → Cache.M Cache.Store Int}
+    {r : Cache.Reg} {sn : Cache.NodeId} {off : Int} (hsel : r.sel = some (sn, off))
+    {s : Cache.St Cache.Store} {k : Int} (hk : (ev sn s).1 = .ok k)
+    (hov : ¬ (Cache.I64_MIN ≤ k * off ∧ k * off ≤ Cache.I64_MAX) ∨
+      ¬ (Cache.I64_MIN ≤ r.base + k * off ∧ r.base + k * off ≤ Cache.I64_MAX)) :
+    Cache.regAddr p ev r s = (.panic, (ev sn s).2) :=
+  Proofs.C01Cached.address_overflow_checked hp hsel hk hov
+
+/-- **pindex_address_overflow_wraps**: without overflow checks the address is the `i64`
+congruent to `base + k·off` modulo `2^64`. -/
+theorem pindex_address_overflow_wraps {p : Profile} (hp : p.overflowChecks = false)
+    {ev : Cache.NodeId → Cache.M Cache.Store Int}
+    {r : Cache.Reg} {sn : Cache.NodeId} {off : Int} (hsel : r.sel = some (sn, off))
+    {s : Cache.St Cache.Store} {k : Int} (hk : (ev sn s).1 = .ok k) :
+    ∃ a q : Int, Cache.regAddr p ev r s = (.ok a, (ev sn s).2) ∧
+      Cache.I64_MIN ≤ a ∧ a ≤ Cache.I64_MAX ∧ a = r.base + k * off + q * 2 ^ 64 :=
+  Proofs.C01Cached.address_overflow_wraps hp hsel hk
+
+/-- **cached_write_footprint_dyn** (ANY addressing, constant or `pIndex`; default cache store;
+any state): a successful raw write is, as its LAST device access, exactly one write of
+exactly `buf` (`length` bytes) at `[a, a+length)`, where `a` is what `IRegister::address`
+evaluates to in the state before the call; the accesses `pre` before it belong to that address
+evaluation (selector reads, possibly none when cached); the device then holds `buf` there. -/
+theorem cached_write_footprint_dyn {p : Profile} {g : Cache.Graph} {s s' : Cache.St Cache.Store}
+    {n : Cache.NodeId} {r : Cache.Reg} (hn : g[n]? = some (.reg r)) {buf : Bytes} {u : Cache.Val}
+    (h : Cache.run Cache.defaultCache p g s (.write n buf) = (.ok u, s')) :
+    buf.length = r.len ∧
+    ∃ a pre, (Cache.run Cache.defaultCache p g s (.address n)).1 = .ok (.int a) ∧
+      s'.dev.log = ⟨true, a, r.len, buf, true⟩ :: (pre ++ s.dev.log) ∧
+      s'.dev.peek a r.len = some buf :=
+  Proofs.C01Cached.cached_write_footprint_dyn hn h
+
+/-- **reads_never_write_cached** (default cache store, any state, any description): `value()`
+of ANY node (register of any kind with any addressing, Integer / Enumeration / Boolean
+feature), raw `IRegister::read` with any buffer length and `IRegister::address` leave device
+memory unchanged, whatever their outcome, and every access they add to the log is a read
+(selector reads included). -/
+theorem reads_never_write_cached {p : Profile} {g : Cache.Graph} (s : Cache.St Cache.Store)
+    (op : Cache.Op)
+    (hop : (∃ n, op = .value n) ∨ (∃ n l, op = .read n l) ∨ (∃ n, op = .address n)) :
+    (Cache.run Cache.defaultCache p g s op).2.dev.mem = s.dev.mem ∧
+    (Cache.run Cache.defaultCache p g s op).2.dev.noAccess = s.dev.noAccess ∧
+    ∃ pre, (Cache.run Cache.defaultCache p g s op).2.dev.log = pre ++ s.dev.log ∧
+      ∀ x ∈ pre, x.write = false :=
+  Proofs.C01Cached.reads_never_write_cached s op hop
+
+/-- **cached_raw_roundtrip_dyn** (ANY addressing, `pIndex` included): after a successful raw
+write of `buf`, provided `IRegister::address` still evaluates to the same address (the write
+did not move the register, e.g. by overwriting its own selector), `IRegister::read` returns
+`buf`. -/
+theorem cached_raw_roundtrip_dyn {p : Profile} {g : Cache.Graph} {s s' : Cache.St Cache.Store}
+    {n : Cache.NodeId} {r : Cache.Reg} (hn : g[n]? = some (.reg r)) {buf : Bytes} {u : Cache.Val}
+    (h : Cache.run Cache.defaultCache p g s (.write n buf) = (.ok u, s'))
+    (hstable : (Cache.run Cache.defaultCache p g s' (.address n)).1 =
+      (Cache.run Cache.defaultCache p g s (.address n)).1) :
+    (Cache.run Cache.defaultCache p g s' (.read n r.len)).1 = .ok (.bytes buf) :=
+  Proofs.C01Cached.cached_raw_roundtrip_dyn hn h hstable
+
+/-- **cached_int_roundtrip_dyn** (IntReg with ANY addressing, `pIndex` included; default cache
+store; every caching mode; any state; any description): a successful `set_value(v)` of an
+in-range value ends with exactly one write of exactly the two's-complement image at
+`[a, a+length)` (`pre` = the selector reads of the address evaluation), and `value()`
+afterwards returns `v` provided the address evaluation `value()` performs still yields `a`
+(`regAddr` with the fuel `value()` uses: the write did not move the register, e.g. by
+overwriting its own selector).  No hypothesis on what the description declares or on what
+was cached before. -/
+theorem cached_int_roundtrip_dyn {p : Profile} {g : Cache.Graph} {s s' : Cache.St Cache.Store}
+    {n : Cache.NodeId} {r : Cache.Reg} (hn : g[n]? = some (.reg r))
+    {e : Cache.Endian} {sg : Cache.Sign} (hk : r.kind = .int e sg) {v : Int}
+    (hv : -(2 ^ 63 : Int) ≤ v ∧ v < 2 ^ 63) (hr : InRange r.len (Proofs.C01Cached.sTo sg) v)
+    {u : Cache.Val}
+    (h : Cache.run Cache.defaultCache p g s (.setValue n (.int v)) = (.ok u, s')) :
+    ∃ a pre, s'.dev.log =
+        ⟨true, a, r.len, image r.len (Proofs.C01Cached.eTo e) v, true⟩ :: (pre ++ s.dev.log) ∧
+      ((Cache.regAddr p (Cache.evalInt Cache.defaultCache p g g.length) r s').1 = .ok a →
+        (Cache.run Cache.defaultCache p g s' (.value n)).1 = .ok (.int v)) :=
+  Proofs.C01Cached.cached_int_roundtrip_dyn hn hk hv hr h
+
+/-- **cached_string_roundtrip_dyn** (StringReg with ANY addressing): a successful
+`set_value(str)` ends with exactly one write of exactly the NUL-padded image at `[a, a+length)`,
+and `value()` afterwards returns `str` provided `IRegister::address` still evaluates to `a`. -/
+theorem cached_string_roundtrip_dyn {p : Profile} {g : Cache.Graph} {s s' : Cache.St Cache.Store}
+    {n : Cache.NodeId} {r : Cache.Reg} (hn : g[n]? = some (.reg r)) (hk : r.kind = .string)
+    {str : Bytes} {u : Cache.Val}
+    (h : Cache.run Cache.defaultCache p g s (.setValue n (.str str)) = (.ok u, s')) :
+    Representable r.len str ∧
+    ∃ a pre, s'.dev.log = ⟨true, a, r.len, strImage r.len str, true⟩ :: (pre ++ s.dev.log) ∧
+      ((Cache.run Cache.defaultCache p g s' (.address n)).1 = .ok (.int a) →
+        (Cache.run Cache.defaultCache p g s' (.value n)).1 = .ok (.str str)) :=
+  Proofs.C01Cached.cached_string_roundtrip_dyn hn hk h
+
+/-- what was encoded from `x` decodes to `x` under the float laws (`float_roundtrip8/4`) -/
+private theorem float_decode_back {F : Type} [FloatOps F] (x y : F) (n : Nat) (e : Endianness)
+    (hfl : FloatLen n)
+    (law : (n = 8 → FloatOps.ofBits (FloatOps.toBits x) = x) ∧
+           (n = 4 → FloatOps.widenBits32 (FloatOps.narrowBits32 x) = x))
+    (img : Bytes) (himg : bytesFromFloat x n e = .ok img)
+    (hdec : floatFromSlice (F := F) img e = .ok y) : y = x := by
+  rcases hfl with h4 | h8
+  · obtain ⟨img', hi', _, hd'⟩ := float_roundtrip4 x e (law.2 h4)
+    rw [h4] at himg
+    rw [himg] at hi'
+    injection hi' with hi'
+    rw [← hi', hdec] at hd'
+    injection hd' with hd'
+  · obtain ⟨img', hi', _, hd'⟩ := float_roundtrip8 x e (law.1 h8)
+    rw [h8] at himg
+    rw [himg] at hi'
+    injection hi' with hi'
+    rw [← hi', hdec] at hd'
+    injection hd' with hd'
+
+open Proofs.C01Cached in
+/-- **cached_float_roundtrip_dyn** (FloatReg with ANY addressing): a successful `set_value(x)`
+ends with exactly one write of exactly `bytesFromFloat x` at `[a, a+length)`, and `value()`
+afterwards returns a bit pattern denoting `x` (float laws as in `cached_float_roundtrip`)
+provided `IRegister::address` still evaluates to `a`. -/
+theorem cached_float_roundtrip_dyn {F : Type} [FloatOps F] {p : Profile} {g : Cache.Graph}
+    {s s' : Cache.St Cache.Store} {n : Cache.NodeId} {r : Cache.Reg}
+    (hn : g[n]? = some (.reg r)) {e : Cache.Endian} (hk : r.kind = .float e) (x : F)
+    (law : (r.len = 8 → FloatOps.ofBits (FloatOps.toBits x) = x) ∧
+           (r.len = 4 → FloatOps.widenBits32 (FloatOps.narrowBits32 x) = x))
+    {w : Nat} {u : Cache.Val}
+    (h : Cache.run Cache.defaultCache p g s (.setValue n (.flt w (fltBits x r.len))) = (.ok u, s')) :
+    FloatLen r.len ∧
+    ∃ img, bytesFromFloat x r.len (eTo e) = .ok img ∧
+    ∃ a pre, s'.dev.log = ⟨true, a, r.len, img, true⟩ :: (pre ++ s.dev.log) ∧
+      ((Cache.run Cache.defaultCache p g s' (.address n)).1 = .ok (.int a) →
+        ∃ k, (Cache.run Cache.defaultCache p g s' (.value n)).1 = .ok (.flt r.len k) ∧
+          fltOf (F := F) r.len k = x) := by
+  obtain ⟨buf, hb, hlen, a, pre, hlog, hrt⟩ := Proofs.C01Cached.cached_float_roundtrip_dyn hn hk h
+  have hfl : FloatLen r.len := by
+    unfold Cache.bytesFromFloat at hb
+    split at hb
+    · rename_i hc
+      simp only [Bool.or_eq_true, beq_iff_eq] at hc
+      exact hc.symm
+    · cases hb
+  have himg := (Proofs.C01Cached.cache_bytesFromFloat_is_reg x r.len hfl e buf).mp hb
+  refine ⟨hfl, buf, himg, a, pre, hlog, fun hst => ?_⟩
+  obtain ⟨hc1, hc2⟩ := Proofs.C01Cached.cache_floatFromSlice_is_reg (F := F) buf (by rw [hlen]; exact hfl) e
+  rw [hlen] at hc1 hc2
+  exact ⟨Cache.fromEndian e buf, by rw [hrt hst, hc1],
+    float_decode_back x _ r.len (eTo e) hfl law buf himg hc2⟩
+
+/-- non-vacuity: a 3-byte StringReg and a 4-byte FloatReg, both at `2 + sel·1` with `sel = 2`
+(address 4): `set_value`, then `IRegister::address` is still 4 and `value()` returns the value -/
+example :
+    let g : Cache.Graph := [.port, .reg ⟨.int .le .unsigned, 0, none, 1, .writeAround, .rw, [], 0⟩,
+      .reg ⟨.string, 2, some (1, 1), 3, .writeThrough, .rw, [], 0⟩,
+      .reg ⟨.float .le, 2, some (1, 1), 4, .writeAround, .rw, [], 0⟩]
+    let s0 := Cache.initDefault g ⟨[2, 0, 0, 0, 0x41, 0x42, 0x43, 0x44], [], [], [], [], 0, []⟩
+    let s1 := (Cache.run Cache.defaultCache Profile.dev g s0 (.setValue 2 (.str [0x68]))).2
+    let s2 := (Cache.run Cache.defaultCache Profile.dev g s1 (.setValue 3 (.flt 4 0x3FC00000))).2
+    (Cache.run Cache.defaultCache Profile.dev g s0 (.value 2)).1 = .ok (.str [0x41, 0x42, 0x43]) ∧
+    (Cache.run Cache.defaultCache Profile.dev g s0 (.setValue 2 (.str [0x68]))).1 = .ok .unit ∧
+    s1.dev.log = [⟨true, 4, 3, [0x68, 0, 0], true⟩, ⟨false, 0, 1, [2], true⟩] ∧
+    (Cache.run Cache.defaultCache Profile.dev g s1 (.address 2)).1 = .ok (.int 4) ∧
+    (Cache.run Cache.defaultCache Profile.dev g s1 (.value 2)).1 = .ok (.str [0x68]) ∧
+    (Cache.run Cache.defaultCache Profile.dev g s1 (.setValue 3 (.flt 4 0x3FC00000))).1 = .ok .unit ∧
+    s2.dev.mem = [2, 0, 0, 0, 0, 0, 0xC0, 0x3F] ∧
+    (Cache.run Cache.defaultCache Profile.dev g s2 (.value 3)).1 = .ok (.flt 4 0x3FC00000) := by
+  decide +kernel
+
+/-- non-vacuity: a 2-byte WriteThrough IntReg at `2 + sel·2` (selector node 1 reads 1, cached
+by an earlier `value()`): `set_value(-2)` writes `FE FF` at 4, `value()` returns `-2` -/
+example :
+    let g : Cache.Graph := [.port, .reg ⟨.int .le .unsigned, 0, none, 1, .writeThrough, .rw, [], 0⟩,
+      .reg ⟨.int .le .signed, 2, some (1, 2), 2, .writeThrough, .rw, [], 0⟩]
+    let s0 := Cache.initDefault g ⟨[1, 0, 0, 0, 0x34, 0x12, 0xCC], [], [], [], [], 0, []⟩
+    let s1 := (Cache.run Cache.defaultCache Profile.dev g s0 (.value 2)).2
+    let s2 := (Cache.run Cache.defaultCache Profile.dev g s1 (.setValue 2 (.int (-2)))).2
+    (Cache.run Cache.defaultCache Profile.dev g s0 (.value 2)).1 = .ok (.int 0x1234) ∧
+    (Cache.run Cache.defaultCache Profile.dev g s1 (.setValue 2 (.int (-2)))).1 = .ok .unit ∧
+    s2.dev.mem = [1, 0, 0, 0, 0xFE, 0xFF, 0xCC] ∧
+    (Cache.regAddr Profile.dev (Cache.evalInt Cache.defaultCache Profile.dev g g.length)
+      (⟨.int .le .signed, 2, some (1, 2), 2, .writeThrough, .rw, [], 0⟩ : Cache.Reg) s2).1 = .ok 4 ∧
+    (Cache.run Cache.defaultCache Profile.dev g s2 (.value 2)).1 = .ok (.int (-2)) := by
+  decide +kernel
+
+/-- non-vacuity: register 2 lives at `2 + sel·2`, the selector (node 1, one byte at 0) reads 1:
+address 4; the write is `R(0,1)` for the selector, then `W(4,2)`.  With an 8-byte selector
+holding `2^62` and `Offset = 4` the address overflows: panic in dev, wrapped to `2` in release -/
+example :
+    let g : Cache.Graph := [.port, .reg ⟨.int .le .unsigned, 0, none, 1, .noCache, .rw, [], 0⟩,
+      .reg ⟨.raw, 2, some (1, 2), 2, .writeThrough, .rw, [], 0⟩]
+    let s0 := Cache.initDefault g ⟨[1, 0, 0, 0, 0xAA, 0xBB, 0xCC], [], [], [], [], 0, []⟩
+    let g' : Cache.Graph := [.port, .reg ⟨.int .le .signed, 0, none, 8, .noCache, .rw, [], 0⟩,
+      .reg ⟨.raw, 2, some (1, 4), 2, .writeThrough, .rw, [], 0⟩]
+    let s0' := Cache.initDefault g' ⟨[0, 0, 0, 0, 0, 0, 0, 0x40, 0xCC], [], [], [], [], 0, []⟩
+    (Cache.run Cache.defaultCache Profile.dev g s0 (.address 2)).1 = .ok (.int 4) ∧
+    (Cache.run Cache.defaultCache Profile.dev g s0 (.write 2 [7, 8])).1 = .ok .unit ∧
+    (Cache.run Cache.defaultCache Profile.dev g s0 (.write 2 [7, 8])).2.dev.log =
+      [⟨true, 4, 2, [7, 8], true⟩, ⟨false, 0, 1, [1], true⟩] ∧
+    (Cache.run Cache.defaultCache Profile.dev g
+      (Cache.run Cache.defaultCache Profile.dev g s0 (.write 2 [7, 8])).2 (.address 2)).1 = .ok (.int 4) ∧
+    (Cache.run Cache.defaultCache Profile.dev g
+      (Cache.run Cache.defaultCache Profile.dev g s0 (.write 2 [7, 8])).2 (.read 2 2)).1 =
+        .ok (.bytes [7, 8]) ∧
+    (Cache.run Cache.defaultCache Profile.dev g' s0' (.address 2)).1 = .panic ∧
+    (Cache.run Cache.defaultCache Profile.release g' s0' (.address 2)).1 = .ok (.int 2) := by
+  decide +kernel
+
+/-! ## 10. `StringReg::value` returns `String::from_utf8_lossy` of the bytes before the first NUL
+
+`Reg.utf8Lossy` (`Model/RegUtf8.lean`) is an executable model of the standard library's
+lossy decoder (one U+FFFD per maximal invalid subpart), tied to std by the differential: the
+`str.value` answers carry the bytes of the returned `String` (invalid, truncated, overlong,
+surrogate and out-of-range sequences are generated on purpose).
+`StringReg.valueString` = `utf8Lossy` of what `StringReg.value` returns. -/
+
+/-- **lossy_ascii_identity**: ASCII bytes are returned unchanged. -/
+theorem lossy_ascii_identity (bs : Bytes) (h : ∀ b ∈ bs, b < 0x80) : utf8Lossy bs = bs :=
+  Proofs.C01Utf8.utf8Lossy_ascii bs h
+
+/-- **lossy_bounded**: for ANY bytes the decoded string is at most three times as long. -/
+theorem lossy_bounded (bs : Bytes) : (utf8Lossy bs).length ≤ 3 * bs.length :=
+  Proofs.C01Utf8.utf8Lossy_length_le bs
+
+/-- **lossy_no_invention**: for ANY bytes, every byte of the decoded string is a byte of the
+input or one of the three bytes `EF BF BD` of U+FFFD; in particular the decoding of the
+NUL-free prefix of a register is NUL-free. -/
+theorem lossy_no_invention (bs : Bytes) :
+    (∀ x ∈ utf8Lossy bs, x ∈ bs ∨ x ∈ replacement) ∧
+    ((∀ b ∈ bs, b ≠ 0) → ∀ x ∈ utf8Lossy bs, x ≠ 0) :=
+  ⟨Proofs.C01Utf8.utf8Lossy_mem bs, Proofs.C01Utf8.utf8Lossy_nul_free bs⟩
+
+/-- **lossy_wellformed**: for ANY bytes the decoded string is well-formed UTF-8 (Unicode Table
+3-7, `Proofs.C01Utf8.WellFormed`) — the `String` invariant holds for every device image. -/
+theorem lossy_wellformed (bs : Bytes) : Proofs.C01Utf8.WellFormed (utf8Lossy bs) :=
+  Proofs.C01Utf8.utf8Lossy_wellFormed bs
+
+/-- **lossy_wellformed_identity**: well-formed UTF-8 (ASCII or not) is returned unchanged; hence
+decoding is idempotent. -/
+theorem lossy_wellformed_identity (bs : Bytes) :
+    (Proofs.C01Utf8.WellFormed bs → utf8Lossy bs = bs) ∧
+    utf8Lossy (utf8Lossy bs) = utf8Lossy bs :=
+  ⟨Proofs.C01Utf8.utf8Lossy_of_wellFormed bs,
+   Proofs.C01Utf8.utf8Lossy_of_wellFormed _ (Proofs.C01Utf8.utf8Lossy_wellFormed bs)⟩
+
+/-- `WellFormed` is neither empty nor everything: "aé€" is well-formed, the overlong `C0 80`
+and the surrogate `ED A0 80` are not -/
+example :
+    Proofs.C01Utf8.WellFormed [0x61, 0xC3, 0xA9, 0xE2, 0x82, 0xAC] ∧
+    ¬ Proofs.C01Utf8.WellFormed [0xC0, 0x80] ∧ ¬ Proofs.C01Utf8.WellFormed [0xED, 0xA0, 0x80] := by
+  refine ⟨.one _ _ (by decide) (.two _ _ _ (by decide) (by decide)
+      (.three _ _ _ _ (by decide) (by decide) (by decide) .nil)), ?_, ?_⟩
+  · intro h
+    have := Proofs.C01Utf8.utf8Lossy_of_wellFormed _ h
+    revert this; decide +kernel
+  · intro h
+    have := Proofs.C01Utf8.utf8Lossy_of_wellFormed _ h
+    revert this; decide +kernel
+
+/-- **str_value_string_total**: decoding adds no failure and no device access — for every
+port, address, length, device and device image, `value()` as a `String` succeeds exactly when
+the byte-level `value()` does (same error, same panic, same device afterwards), and then it
+is the lossy decoding of the bytes before the first NUL. -/
+theorem str_value_string_total (port : Port) (address length : Int) (d : Dev) :
+    (∀ pre d', StringReg.value port address length d = (.ok pre, d') →
+      StringReg.valueString port address length d = (.ok (utf8Lossy pre), d')) ∧
+    (∀ er d', StringReg.value port address length d = (.err er, d') →
+      StringReg.valueString port address length d = (.err er, d')) ∧
+    (∀ d', StringReg.value port address length d = (.panic, d') →
+      StringReg.valueString port address length d = (.panic, d')) := by
+  unfold StringReg.valueString
+  refine ⟨?_, ?_, ?_⟩ <;> intros <;> simp [*]
+
+/-- **str_value_string_any_image**: on a plain port with a device that answers, for EVERY byte
+image held by the device (valid UTF-8 or not), `value()` succeeds: exactly one read of
+`[address, address+n)`, the result is the lossy decoding of the bytes before the first NUL,
+memory unchanged.  No panic, no error. -/
+theorem str_value_string_any_image (port : Port) (hp : port.hasChunkId = false) (address : Int)
+    (n : Nat) (hlt : n < 2 ^ 63) (d : Dev) (hd : d.refuse d.attempts = false) :
+    StringReg.valueString port address n d =
+      (.ok (utf8Lossy (cstrPrefix (d.mem.readRange address n))), afterRead d address n) := by
+  unfold StringReg.valueString StringReg.value
+  rcases withRead_cases port address n d (fun data => .ok (cstrPrefix data)) with
+    ⟨_, h⟩ | ⟨_, h⟩ | ⟨_, h⟩ | ⟨h, _⟩
+  · rw [asUsize_nat n hlt] at h; exact absurd hlt h
+  · rw [hp] at h; cases h
+  · rw [hd] at h; cases h
+  · rw [h, asUsize_nat n hlt]
+
+/-- **str_value_string_ascii**: whenever the bytes before the first NUL are ASCII — in
+particular after every successful `set_value` (`str_roundtrip`) — the returned `String` is
+exactly those bytes. -/
+theorem str_value_string_ascii (port : Port) (address length : Int) (d d' : Dev) (pre : Bytes)
+    (h : StringReg.value port address length d = (.ok pre, d')) (ha : ∀ b ∈ pre, b < 0x80) :
+    StringReg.valueString port address length d = (.ok pre, d') := by
+  rw [(str_value_string_total port address length d).1 pre d' h, lossy_ascii_identity pre ha]
+
+/-- **str_string_roundtrip**: `str_roundtrip` at the `String` level: after `set_value(s)` of
+a representable string, `value()` returns the `String` `s`. -/
+theorem str_string_roundtrip (port : Port) (hp : port.hasChunkId = false) (address : Int) (n : Nat)
+    (hlt : n < 2 ^ 63) (value : Bytes) (hrep : Representable n value) (d : Dev) (hd : d.Reliable) :
+    ∃ d1 d2, StringReg.setValue port address n value d = (.ok (), d1) ∧
+      StringReg.valueString port address n d1 = (.ok value, d2) ∧
+      d2.log = d.log ++ [⟨.write, address, n, strImage n value⟩, ⟨.read, address, n, strImage n value⟩] := by
+  obtain ⟨d1, d2, h1, ha1, h2, ha2, _⟩ := str_roundtrip port hp address n hlt value hrep d hd
+  refine ⟨d1, d2, h1, ?_, ?_⟩
+  · exact str_value_string_ascii port address n d1 d2 value h2 (fun b hb => (hrep.1 b hb).1)
+  · rw [ha2.1, ha1.1, List.append_assoc]; rfl
+
+/-- the decoder on the classical cases: valid 2/3/4-byte sequences pass; a lone continuation,
+an overlong `C0 80`, a surrogate `ED A0 80` (three subparts), a truncated `E2 82` (one
+subpart), `F4 90 80 80` (above U+10FFFF: four subparts), `F0 9F 98` cut by an ASCII byte -/
+example :
+    utf8Lossy [0x61, 0xC3, 0xA9, 0xE2, 0x82, 0xAC, 0xF0, 0x9F, 0x98, 0x80] =
+      [0x61, 0xC3, 0xA9, 0xE2, 0x82, 0xAC, 0xF0, 0x9F, 0x98, 0x80] ∧
+    utf8Lossy [0x80] = [0xEF, 0xBF, 0xBD] ∧
+    utf8Lossy [0xC0, 0x80] = [0xEF, 0xBF, 0xBD, 0xEF, 0xBF, 0xBD] ∧
+    utf8Lossy [0xED, 0xA0, 0x80] = [0xEF, 0xBF, 0xBD, 0xEF, 0xBF, 0xBD, 0xEF, 0xBF, 0xBD] ∧
+    utf8Lossy [0xE2, 0x82] = [0xEF, 0xBF, 0xBD] ∧
+    utf8Lossy [0xF4, 0x90, 0x80, 0x80] =
+      [0xEF, 0xBF, 0xBD, 0xEF, 0xBF, 0xBD, 0xEF, 0xBF, 0xBD, 0xEF, 0xBF, 0xBD] ∧
+    utf8Lossy [0xF0, 0x9F, 0x98, 0x41] = [0xEF, 0xBF, 0xBD, 0x41] := by
   decide +kernel
 
 end CamVerif.C01
